@@ -15,6 +15,7 @@ R6 width agreement (rules/widths.py): the buffered-bytes total and the memory li
    a larger limit is then never reached).
 R7 closure pairing (rules/closures.py): the sorter's merge function is called and forwarded with its own closure.
 D  rests on: C02 C02.R3 (chunks are sorted and folded with the byte comparison) - re-run here as <id>.D.<rule>.
+R8 container contract (rules/vecrule.py): libmy/vector.h keeps its invariants, element preservation, post-conditions and memory safety in every scenario (the sorter's entry list and reader list are these vectors).
 """
 import re
 from .common import *
@@ -249,3 +250,7 @@ def run(ctx, res):
 
     # ---- properties this one rests on (re-run here, labelled <this>.D.<rule>) ------------------
     depends(ctx, res, 'C02', ('C02.R3',), 'chunks are sorted and folded with the byte comparison')
+
+    # ---- container contract ---------------------------------------------------------------------
+    from . import vecrule
+    vecrule.check(ctx, res, "C06.R8")
